@@ -3,7 +3,9 @@
  1. Coq: Props/C06.v (model of the folder agrees with the run-time operators of NumImpl for ALL literal trees)
  2. the property itself on the real binary: every generated literal expression tree is rendered twice --
     folded (literals inline: the compiler evaluates it) and unfolded (every literal bound to a variable
-    first: evaluated at run time) -- compiled and run with typed print; verdicts, values and kinds must agree
+    first: evaluated at run time) -- compiled and run with typed print; verdicts, values and kinds must agree;
+    a third rendering (the first literal through a variable, the others inline) checks the literal
+    SUB-expressions; comparisons / equality over literals (never folded: compiled as written) are part of it
  3. correspondence: both observations against the extracted models (Fold/FoldModel.v fold, eval_rt)
 """
 import itertools
@@ -12,6 +14,7 @@ import os
 from . import core, extract, programs, num_common as nc
 
 FOLDED_OPS = nc.ARITH + nc.BITS + nc.SHIFTS
+UNFOLDED_OPS = nc.CMPS + nc.EQS        # the folder answers "impossible": the literals are compiled as written
 
 # source literals (no sign): full set for depth 1, core set for the exhaustive depth-2 enumeration
 LEAVES = {
@@ -113,6 +116,26 @@ def programs_for(e):
     return folded, unfolded
 
 
+class _FirstOnly:
+    """name source for the mixed rendering: the first leaf is a variable, every other one stays a literal"""
+    def __init__(self, lv):
+        self.lv, self.i = lv, 0
+
+    def __next__(self):
+        i = self.i
+        self.i += 1
+        return "v0" if i == 0 else src_literal(self.lv[i])
+
+
+def mixed_program(e):
+    """first literal bound to a variable, the rest inline: nothing is folded at the root, the remaining literals
+    (and literal sub-expressions) are compiled where they stand.  None when the tree has a single leaf."""
+    lv = leaves_of(e, [])
+    if len(lv) < 2:
+        return None
+    return "v0 = %s\nprint %s\n" % (src_literal(lv[0]), render(e, _FirstOnly(lv)))
+
+
 # ----------------------------------------------------------------------------- generation
 def gen_trees(ctx):
     rng = ctx.rng
@@ -143,10 +166,29 @@ def gen_trees(ctx):
               ("bin", "add", ("get", L("I5")), L("I1")), ("list", [("bin", "add", L("I1"), L("I2")), ("bin", "mul", L("I3"), L("I4"))]),
               ("list", [("neg", L("I5")), ("bin", "sub", L("I0"), L("I5"))]),
               ("list", [("bin", "div", L(nc.f2bits(1.0)), L(nc.f2bits(4.0))), ("neg", L(nc.f2bits(0.5)))])]
+    # an integer literal beyond 32 bits where the folder does not evaluate: operand of a comparison / equality,
+    # next to a variable (mixed rendering), under unary minus (the natural spelling of INT_MIN), in a list
+    for big in ("I2147483648", "I3000000000", "I4294967296", "I9223372036854775808"):
+        for op in UNFOLDED_OPS:
+            trees.append(("bin", op, L(big), L("I5")))
+            trees.append(("bin", op, L("I5"), L(big)))
+        trees += [("bin", "lt", ("neg", L(big)), L("I0")), ("bin", "eq", ("neg", L(big)), ("neg", L(big))),
+                  ("bin", "add", L("I1"), L(big)), ("bin", "mul", L("Y2"), L(big)), ("bin", "sub", L("I1"), ("neg", L(big))),
+                  ("bin", "lt", ("bin", "add", L(big), L("I1")), L("B7")), ("list", [("bin", "lt", L(big), L("I5"))]),
+                  ("not", ("bin", "lt", L(big), L("I5"))), ("bin", "lt", L(big), L(nc.f2bits(1.5))), ("bin", "eq", L(big), L("B%d" % nc.ival(big)))]
+    # `<<` that would lose a bit (C05): folder and run time must both refuse
+    trees += [("bin", "shl", L("I1"), L("I31")), ("bin", "shl", L("I3"), L("I31")), ("bin", "shl", L("Y255"), L("Y1")),
+              ("bin", "shl", L("B3"), L("I127")), ("bin", "shl", ("neg", L("I1")), L("I31")), ("bin", "shl", L("Y255"), L("I1")),
+              ("bin", "shl", L("I1"), L("I30")), ("bin", "shl", ("neg", L("I2")), L("I31"))]
     n_special = len(trees)
     # depth 1: every folded operator x every pair of leaves; unary minus on every leaf
     d1 = [("bin", op, L(a), L(b)) for op in FOLDED_OPS for a in full for b in full]
     d1 += [("neg", L(a)) for a in full]
+    # comparisons / equality at the root of literal operands (not folded), operands also negated / one level deep
+    d1c = [("bin", op, L(a), L(b)) for op in UNFOLDED_OPS for a in full for b in full]
+    d1c += [("bin", op, ("neg", L(a)), L(b)) for op in UNFOLDED_OPS for a in full for b in CORE]
+    d1c += [("bin", op, ("bin", op1, L(a), L(b)), L(c)) for op in ("lt", "eq") for op1 in FOLDED_OPS
+            for a in CORE2 for b in CORE2 for c in CORE2]
     # depth 2 over the core leaves: both shapes, unary minus inside and outside
     core = CORE
     d2 = []
@@ -165,8 +207,9 @@ def gen_trees(ctx):
     if quick:
         d1 = rng.sample(d1, 500)
         d2 = rng.sample(d2, 500)
-    trees += d1 + d2
-    n_d12 = len(d1) + len(d2)
+        d1c = rng.sample(d1c, 200)
+    trees += d1 + d2 + d1c
+    n_d12 = len(d1) + len(d2) + len(d1c)
 
     # depth 3 random, incl. get / or / lists / comparisons (not folded) wrappers
     def rnd(depth, plain):
@@ -187,12 +230,14 @@ def gen_trees(ctx):
             d3.append(("get", rnd(2, True)))
         elif r < 0.88:
             d3.append(("bin", rng.choice(FOLDED_OPS), ("get", rnd(1, True)), rnd(1, True)))
-        elif r < 0.94:
+        elif r < 0.91:
             d3.append(("list", [rnd(2, False) for _ in range(rng.randint(1, 3))]))
+        elif r < 0.94:
+            d3.append(("bin", rng.choice(UNFOLDED_OPS), rnd(2, False), rnd(2, False)))
         else:
             d3.append(("not", ("not", L(rng.choice(["Ttrue", "Tfalse"])))) if rng.random() < 0.5 else ("not", L(rng.choice(["Ttrue", "Tfalse"]))))
     trees += d3
-    dist = {"special": n_special, "depth1": len(d1), "depth2": len(d2), "depth3_random": len(d3),
+    dist = {"special": n_special, "depth1": len(d1), "depth2": len(d2), "comparisons_of_literals": len(d1c), "depth3_random": len(d3),
             "leaf_set": len(full), "core_leaf_set": len(core)}
     return trees, dist, exhaustive
 
@@ -220,7 +265,8 @@ def observe(ctx, binary, trees):
 
     def one(e):
         f, u = programs_for(e)
-        return run_one(f), run_one(u)
+        mx = mixed_program(e)
+        return run_one(f), run_one(u), (run_one(mx) if mx is not None else None)
 
     return programs.pmap(one, trees)
 
@@ -277,6 +323,9 @@ def classify(e, folded, unfolded):
     c = core_tree(e) if e[0] != "list" else e
     s = sexp(c) if e[0] != "list" else " ".join(sexp(core_tree(x)) for x in e[1])
     has_neg = "(neg" in s
+    oversized = any(t[0] == "I" and nc.ival(t) > nc.I32_MAX for t in leaves_of(e, []))
+    if oversized and folded in ("ERR", "PANIC") and not fails(unfolded):
+        return "int-literal-beyond-32-bits-compiled-as-int"
     byte_zero_divisor = any(("(%s F" % o) in s or ("(%s (" % o) in s for o in ("div", "rem")) and "Y0" in s
     if not fails(folded) and not fails(unfolded):
         if folded[0] != unfolded[0] and folded[0] in "IBYFT":
@@ -302,11 +351,11 @@ def run(ctx):
     obs = observe(ctx, binary, trees)
     model_idx = [i for i, e in enumerate(trees) if e[0] != "list"]
     model = dict(zip(model_idx, run_fold_model(ctx, [core_tree(trees[i]) for i in model_idx])))
-    prop_fail = dis = 0
+    prop_fail = dis = n_mixed = 0
     nontrivial = set()
     verdicts = {}
     for i, e in enumerate(trees):
-        folded, unfolded = obs[i]
+        folded, unfolded, mixed = obs[i]
         key = "%s/%s" % ("fail" if fails(folded) else "value", "fail" if fails(unfolded) else "value")
         verdicts[key] = verdicts.get(key, 0) + 1
         m = model.get(i)
@@ -321,6 +370,22 @@ def run(ctx):
             nontrivial.add(sexp(core_tree(e)))
         if folded.startswith("?") or unfolded.startswith("?"):
             agree = False
+        # the mixed rendering (first literal through a variable): its literal sub-expressions must mean what they
+        # mean over variables -- same value and kind, or both renderings fail
+        if agree and mixed is not None:
+            n_mixed += 1
+            if not (mixed == unfolded if not fails(unfolded) else fails(mixed)):
+                prop_fail += 1
+                f, u = programs_for(e)
+                oversized = any(t[0] == "I" and nc.ival(t) > nc.I32_MAX for t in leaves_of(e, [])[1:])
+                cls = "int-literal-beyond-32-bits-compiled-as-int" if oversized and mixed in ("ERR", "PANIC") else \
+                    "literal-operand-next-to-a-variable-differs:" + shape(e)
+                ctx.report(cls, "a literal operand next to a variable does not mean what it means through a variable: `%s` -> %s, with every operand in a variable -> %s"
+                           % (mixed_program(e).strip().replace("\n", "; "), mixed, unfolded),
+                           {"tree": sexp(core_tree(e)) if e[0] != "list" else str(e), "mixed_program": mixed_program(e), "unfolded_program": u,
+                            "mixed_observed": mixed, "unfolded_observed": unfolded, "folded_observed": folded, "model": m,
+                            "how": "MSCRIPT_VERIF_TYPED_PRINT=1 mscript run m.ms -q   (each program in an empty directory)"})
+                continue
         if not agree:
             prop_fail += 1
             f, u = programs_for(e)
@@ -342,11 +407,17 @@ def run(ctx):
             dis += 1
             f, u = programs_for(e)
             which = "folder model (Fold/FoldModel.v fold FixedF)" if not good_f else "run-time model (eval_rt Fixed)"
-            ctx.report("correspondence:%s:%s" % ("fold" if not good_f else "rt", shape(e)),
+            cls = "correspondence:%s:%s" % ("fold" if not good_f else "rt", shape(e))
+            if "(shl " in sexp(core_tree(e)) and fails(m["rt"]) and not fails(unfolded) and m.get("rt_orig_trap") == unfolded:
+                # C05 shl-overflow-yields-truncated-value: the tree under test still has checked_shl in the folder and at run
+                # time (both truncate, so the two renderings agree); the models are those of fixes/num-shl-lost-bits.diff
+                cls = "correspondence:shl-loses-bits-in-folder-and-at-run-time"
+            ctx.report(cls,
                        "%s disagrees with the implementation on `%s`: folded observed=%s model=%s; unfolded observed=%s model=%s" % (which, f.strip(), folded, m["fold"], unfolded, m["rt"]),
                        {"tree": sexp(core_tree(e)), "folded_program": f, "unfolded_program": u, "folded_observed": folded,
                         "unfolded_observed": unfolded, "model": m}, found_input=False)
-    ctx.cov["evaluations"] = 2 * len(trees)
+    ctx.cov["evaluations"] = 2 * len(trees) + n_mixed
+    ctx.cov["mixed_renderings_compared"] = n_mixed
     ctx.cov["distinct_nontrivial"] = len(nontrivial)
     ctx.cov["exhaustive"] = exhaustive
     ctx.cov["exhaustive_part"] = ("all depth-1 trees over %d source literals x 10 folded operators + unary minus; all depth-2 trees over the %d core literals (both shapes) and unary minus inside/outside (x %d literals): %d trees"
@@ -354,7 +425,7 @@ def run(ctx):
         "quick tier: sample of %d depth-1 and %d depth-2 trees" % (dist["depth1"], dist["depth2"])
     ctx.cov["distribution"] = dist
     ctx.cov["verdict_pairs_folded/unfolded"] = verdicts
-    ctx.cov["rule"] = ("evaluations = programs compiled and run (2 renderings per tree); non-trivial = distinct tree the folder model folds "
+    ctx.cov["rule"] = ("evaluations = programs compiled and run (2 renderings per tree + the mixed rendering of trees with two or more leaves); non-trivial = distinct tree the folder model folds "
                        "with leaves of different kinds, or that the folder rejects")
     ctx.cov["renderings_disagree"] = prop_fail
     ctx.cov["model_impl_disagreements"] = dis
@@ -362,7 +433,7 @@ def run(ctx):
     ctx.cov["traces_validated_against_impl"] = 2 * len(model)
     for j in (0, 30, len(trees) // 2, len(trees) - 3):
         f, u = programs_for(trees[j])
-        ctx.sample({"folded": f, "unfolded": u, "observed": obs[j], "model": model.get(j)})
+        ctx.sample({"folded": f, "unfolded": u, "mixed": mixed_program(trees[j]), "observed": obs[j], "model": model.get(j)})
     ctx.cov["trusted_base"] = ["Coq 8.16.1 kernel (coqc; vm_compute in Examples / witness lemmas)",
                                "Flocq 4.1.0 IEEE754.BinarySingleNaN (binary64) and its library axioms as printed by Print Assumptions",
                                "literal texts are modelled abstractly (Src / Dec / Minus): Rust's integer and f64 FromStr / Display round trip and correctly rounded decimal->binary64 parsing are assumptions, exercised by this run",
@@ -373,4 +444,4 @@ def run(ctx):
                        "a compile-time rejection corresponds to any run-time failure (error or panic) of the unfolded rendering"]
     if ok and not ctx.quick():
         nc.coqchk(ctx, ["MS.Props.C06"])
-    core.proof_or_search(ctx, ok, ["C06_fold_agrees"], prop_fail > 0)
+    core.proof_or_search(ctx, ok, ["C06_fold_agrees", "C06_inline_agrees"], prop_fail > 0)
